@@ -1173,6 +1173,12 @@ func convertAnyToString(value any, datatype string) (str string, err error) {
 
 	switch v := value.(type) {
 	case float64:
+		if datatype != ld.XSDDouble && v == float64(int64(v)) {
+			// the JSON-LD processor writes an integral number of a
+			// non-double type as an integer, with all its digits
+			str = strconv.FormatInt(int64(v), 10)
+			break
+		}
 		// https://www.w3.org/TR/2014/REC-json-ld-api-20140116/#data-round-tripping
 		str = ld.GetCanonicalDouble(v)
 	case float32:
